@@ -338,6 +338,13 @@ func (d *ReadingOrderDetector) buildColumnSection(col Column, colIndex int, page
 	// Recalculate alignment based on column width
 	recalculateLineAlignment(lines, col.BBox.Width)
 
+	// Back to page coordinates: everything downstream (paragraph boxes, the
+	// element tree, headings and lists found on the whole page) compares boxes
+	// on the page, not within the column
+	for i := range lines {
+		lines[i].BBox.X += col.BBox.X
+	}
+
 	return ReadingSection{
 		Type:        SectionColumn,
 		Lines:       lines,
